@@ -10,7 +10,7 @@ THEOREMS = ["C03_dq_decode", "C03_dq_reject_octal", "C03_dq_reject_bad", "C03_sq
             "C03_comment_no_value"]
 VARIANT = "asan"
 RULE = ("literals over the scanner's byte classes (one representative each, plus ${..} atoms) placed in double-quoted, "
-        "single-quoted and unquoted position of 's = <lit>'; exhaustive to the tier's length bound, random beyond; "
+        "single-quoted and unquoted position of 's = <lit>'; exhaustive to length 2 over all 50 atoms (and, thorough tier, to length 3 over the 25 atoms that interact: quotes, backslash, $ { } : -, digits, newline, space, # and the ${..} forms), random beyond; "
         "non-trivial = uses an escape, a substitution, a continuation or a quote-kind switch; distinct by SHA-1 of the case")
 EXHAUSTIVE = {"quick": False, "thorough": False}
 
@@ -53,8 +53,10 @@ def generate(rng, tier):
     cases = []
     n = 0
     maxlen = 2 if tier == "quick" else 3
+    core = [a for a in ATOMS if a in (b'"', b"'", b"\\", b"$", b"{", b"}", b":", b"-", b"0", b"7", b"8", b"x", b"n", b"\n", b" ", b"#", b"A")
+            or a.startswith(b"${") or a == b"\\\n"]
     for L in range(0, maxlen + 1):
-        for combo in itertools.product(ATOMS, repeat=L):
+        for combo in itertools.product(ATOMS if L <= 2 else core, repeat=L):
             lit = b"".join(combo)
             for mode in ("dq", "sq", "un", "li"):
                 cases.append(mk_case("x%d" % n, lit, mode))
